@@ -7,6 +7,7 @@ package nut14
 //@ macro expired(t) = t.Locktime > 0 && clk.now > t.Locktime
 
 //@ func VerifyHTLCProof
+//@   ensures @cashuerr [C20] r0 != nil ==> iscashu(r0) && !internalerr(r0)
 //@   tags C13
 //@   safety C06 C13
 //@   modifies hvs.last, hvs.calls, hvs.fails, clk.now
